@@ -221,14 +221,14 @@ var trCmpGuards = map[string]string{
 
 // preamble statements that carry no row information (checked textually, so an edit is noticed)
 var trPreamble = map[string]bool{
-	"var mapValue, indexValue func(*frame) reflect.Value":                                                                           true,
-	"if setMap { mapValue = genValue(c0.child[0]) indexValue = genValue(c0.child[1]) }":                                             true,
-	"isConst := (v0.IsValid() && isConstantValue(v0.Type())) && (v1.IsValid() && isConstantValue(v1.Type()))":                      true,
-	"isConst := (v0.IsValid() && isConstantValue(v0.Type()))":                                                                       true,
-	"isConst := v0.IsValid() && isConstantValue(v0.Type())":                                                                         true,
-	"if isConst { t = constVal }":                                                                                                   true,
-	"n.rval = reflect.New(t).Elem()":                                                                                                true,
-	"return":                                                                                                                        true,
+	"var mapValue, indexValue func(*frame) reflect.Value":                                                     true,
+	"if setMap { mapValue = genValue(c0.child[0]) indexValue = genValue(c0.child[1]) }":                       true,
+	"isConst := (v0.IsValid() && isConstantValue(v0.Type())) && (v1.IsValid() && isConstantValue(v1.Type()))": true,
+	"isConst := (v0.IsValid() && isConstantValue(v0.Type()))":                                                 true,
+	"isConst := v0.IsValid() && isConstantValue(v0.Type())":                                                   true,
+	"if isConst { t = constVal }":                                                                             true,
+	"n.rval = reflect.New(t).Elem()":                                                                          true,
+	"return":                                                                                                  true,
 }
 
 func (t *trFunc) walk(stmts []ast.Stmt, env trEnv, g trGuards) error {
